@@ -98,7 +98,7 @@ VocabOf(v) ==
   CASE v = "cf"    -> <<Op, Jmp("x"), Jcc("x"), Call("a"), Ret, IJmp, ICall, Label("x"), Label("y"),
                         Byte(1), Jmp("y"), Align(4)>>
     [] v = "data"  -> <<Op5, Ret, Jmp("x"), Label("x"), Byte(2), Quad("a", 4), Str, Ascii, Zero(2),
-                        Align(4), Sec("data"), Sec("text")>>
+                        Align(4), Align(16), Sec("data"), Sec("text")>>
     [] v = "enc"   -> <<Op, Ret, Jmp("x"), Label("x"), Byte(1), Ascii, Ascii0, Uleb("x"), Uleb(""),
                         Quad("x", 0), Sec("data"), Align(8)>>
     [] v = "sym"   -> <<Op, Label("x"), Label("g"), Label("a"), Jmp("x"), Jcc("g"), Call("a"), Call("b"),
@@ -326,6 +326,24 @@ C12_DataConversion(V) ==
             /\ (b.n = 0 => b.code)
             /\ (b.ty # "" => ~b.code)
 
+\* C12_Alignment: a block carries the strictest alignment requested at its
+\* position, and nothing else
+AlignIdx(V, s, p) == {i \in Idx(V) : V.toks[i].k = "align" /\ V.pos[i].sec = s /\ V.pos[i].o = p}
+AlignOK(V, s, b) ==
+  LET rq == AlignIdx(V, s, b.o)
+  IN  IF rq = {} THEN b.al = 0 ELSE b.al = Max({V.toks[i].a : i \in rq})
+C12_Alignment(V) ==
+  \A q \in DOMAIN V.R.secs : \A j \in DOMAIN V.R.secs[q].blocks :
+     AlignOK(V, V.R.secs[q].name, V.R.secs[q].blocks[j])
+\* (defect mirrored by the model: a later, weaker request at the same position
+\*  overwrites the earlier one)
+AlignOverwritten(V) ==
+  \A q \in DOMAIN V.R.secs : \A j \in DOMAIN V.R.secs[q].blocks :
+     LET s == V.R.secs[q].name
+         b == V.R.secs[q].blocks[j]
+         rq == AlignIdx(V, s, b.o)
+     IN  AlignOK(V, s, b) \/ (rq # {} /\ b.al = V.toks[Max(rq)].a /\ b.al < Max({V.toks[i].a : i \in rq}))
+
 \* C12_Operands.  fo/fs: where the independent disassembler places the
 \* displacement / immediate fields of the instruction (x86); <<>> = unknown
 ExpAttrs(V, t, tgt) ==
@@ -422,6 +440,10 @@ C13_Undef(V) ==
   /\ (V.exc = "" =>
         \A j \in DOMAIN V.R.syms : V.R.syms[j].k = "proxy" =>
             \E i \in RefIdx(V) : Unresolved(V, i) /\ V.P.rn[V.toks[i].l] = V.R.syms[j].nm /\ V.P.au)
+\* C13_TempSuffix: temporary labels carry the caller's suffix, others do not
+C13_TempSuffix(V) ==
+  {V.R.syms[j].nm : j \in {q \in DOMAIN V.R.syms : V.R.syms[q].k # "proxy"}}
+     = {ExpName(V.P, V.toks[i].l) : i \in {q \in Idx(V) : V.toks[q].k = "label"}}
 \* C13_Binding: a name of the module binds to the module's own object,
 \* any other to a symbol of the result; the result never shadows the module
 C13_Binding(V) ==
@@ -866,7 +888,8 @@ CaseJson ==
 LevelA(V, dec) ==
   /\ C12_Decode(V, dec) /\ C12_Tiling(V) /\ C12_TerminatorsEndBlocks(V) /\ C12_EdgeShape(V)
   /\ C12_Fallthrough(V) /\ C12_Labels(V) /\ (HasCfi(V) \/ C12_DataConversion(V))
-  /\ C12_Operands(V, dec) /\ C13_Binding(V)
+  /\ C12_Operands(V, dec) /\ C13_Binding(V) /\ C13_TempSuffix(V)
+  /\ (C12_Alignment(V) \/ AlignOverwritten(V))
 \* the model agrees with the function RunAll (the actions and the fold are the same machine)
 FoldAgrees == ph = "done" => fin = RunAll(par, prog)
 \* findings of the code that the model mirrors (Level B follows the code)
